@@ -418,6 +418,41 @@ def check_reset_complete(rep, fl, rule, only=None):
                       "%s::%s leaves %s as it was: the %s state survives the reset, so the object does not behave like a fresh one" % (short(owner), m, ", ".join(left), ", ".join(left)))
 
 
+def check_counters_plumbing(rep, fl, rule="R13.8"):
+    """The builder's num_counters is the estimator's size: finalize hands `inner.num_counters` to the policy
+    constructor, which hands it on unchanged to PolicyInner::with_hasher and TinyLFU::new, where it becomes the
+    sample window (`samples`), the sketch width and the doorkeeper's capacity."""
+    facts = fl.facts
+
+    def forwards(b, callee, pos, want, what):
+        cs = calls_to(b, callee) if b is not None else []
+        ok = len(cs) == 1
+        got = None
+        if ok:
+            got = strip_casts(norm(b.expand(norm(b.call_args(cs[0][1])[pos]))))
+            ok = got == want
+        rep.check(ok, rule, fl, b if b is not None else callee, what, "%s receives the number of counters unchanged" % short(callee),
+                  "%s is given %s instead of the configured number of counters: the aging window / sketch / doorkeeper are sized for another value" % (short(callee), show(got) if got is not None else "nothing"))
+    fin = fl.code(fl.builder + "::finalize")
+    forwards(fin, fl.policy + "::with_hasher", 0, norm(F(V("self"), "inner", "num_counters")), "finalize -> policy")
+    ph = fl.code(fl.policy + "::with_hasher")
+    forwards(ph, "policy::PolicyInner::with_hasher", 0, V(ph.local_name.get(1, "arg1")) if ph is not None else None, "policy -> inner")
+    pi = facts.body("policy::PolicyInner::with_hasher", required=False)
+    forwards(pi, TLFU + "::new", 0, V(pi.local_name.get(1, "arg1")) if pi is not None else None, "inner -> TinyLFU")
+    tn = facts.body(TLFU + "::new")
+    n = V(tn.local_name.get(1, "arg1"))
+    cf = None
+    for bi, si, st, e in agg_nodes(tn, "TinyLFU"):
+        cf = agg_fields(e)
+    ok = cf is not None and strip_casts(norm(tn.expand(cf.get("samples", ())))) == n
+    if ok:
+        ctr = [c for c in calls_in(norm(tn.expand(cf.get("ctr", ())))) if is_call(c, CMS + "::new")]
+        dk = [c for c in calls_in(norm(tn.expand(cf.get("doorkeeper", ())))) if is_call(c, BLOOM + "::new")]
+        ok = len(ctr) == 1 and strip_casts(norm(ctr[0][2][0])) == n and len(dk) == 1 and strip_casts(norm(dk[0][2][0])) == n
+    rep.check(ok, rule, fl, tn, "TinyLFU::new(n)", "TinyLFU::new(n) sets samples = n and sizes the sketch and the doorkeeper for n",
+              "TinyLFU::new no longer uses its argument as the sample window, the sketch width and the doorkeeper capacity")
+
+
 def check_contains_or_add(rep, fl, rule="R13.6"):
     facts = fl.facts
     # contains_or_add: contains -> false ; else add, true
@@ -492,6 +527,7 @@ def check_tinylfu(rep, fl):
     check_contains_or_add(rep, fl)
     # "on a fresh or cleared estimator every key estimates zero": nothing the estimator accumulates survives clear / reset
     check_reset_complete(rep, fl, "R13.3", only=(BLOOM, CMS, TLFU))
+    check_counters_plumbing(rep, fl)
     # "clear() zeroes everything": the policy's clear reaches TinyLFU::clear on every path
     import props_life
     props_life.check_policy_clear(rep, fl, rule="R13.3")
@@ -678,6 +714,7 @@ def check_C14(rep, fl):
     # the doorkeeper's one entry point: present -> false, absent -> add and true
     check_contains_or_add(rep, fl, rule="R14.2")
     check_reset_complete(rep, fl, "R14.4", only=(BLOOM,))
+    check_counters_plumbing(rep, fl, rule="R14.7")
     # "after adding up to n distinct hashes": the doorkeeper is built for num_counters entries and is emptied after
     # that many recordings - every hash it receives passes the per-key window count (increment -> try_reset), also
     # for a batch
